@@ -247,7 +247,8 @@ class Explorer:
         res = [r for r in execute(self.classes, cur, self.seed) if r[0] == bi and r[1:3] == (clause, cname)]
         allgroups = "+".join(sorted({r[3] for r in res})) or group  # every group that fails in the minimal counterexample
         text = " / ".join(r[4] for r in res) or text
-        sig = "%s/%s:%s:%s:%s" % (self.pid, clause, cname, allgroups, self.opclass(cur, bi))
+        # a leak is a defect of __enter__ itself, whichever call of the other object makes it visible
+        sig = "%s/%s:%s:%s:%s" % (self.pid, clause, cname, allgroups, "-" if clause == "leak" else self.opclass(cur, bi))
         what = "%s  [objects on the radio: %s; blocks: %s]" % (text, ", ".join(self.classes), " | ".join(
             "%s#%d{%s}" % (self.classes[y], y, "; ".join(show(op) for op in ops)) for y, ops in cur))
         rdata = {"classes": list(self.classes), "seed": self.seed, "signature": sig,
@@ -429,7 +430,8 @@ def replay(data):
     out = []
     for bi, clause, cname in sorted({r[:3] for r in res}):
         sub = [r for r in res if r[:3] == (bi, clause, cname)]
-        sig = "%s/%s:%s:%s:%s" % (ex.pid, clause, cname, "+".join(sorted({r[3] for r in sub})), ex.opclass(blocks, bi))
+        sig = "%s/%s:%s:%s:%s" % (ex.pid, clause, cname, "+".join(sorted({r[3] for r in sub})),
+                                  "-" if clause == "leak" else ex.opclass(blocks, bi))
         text = " / ".join(r[4] for r in sub)
         print("block %d: %s" % (bi, text))
         out.append((sig, text))
